@@ -93,8 +93,9 @@ def genChain : List Step → List Tok
   | [] => []
   | s :: rest => genStep s ++ genChain rest
 
-/-- `accept_SM_EVT`: Drv_Lbl ":'" Mning "'" — the meaning is printed from the model; for a name-resolved body it
-    is the meaning the source states (a body that omits it is outside the supported set) -/
+/-- `accept_SM_EVT`: Drv_Lbl ":'" Mning "'" — the meaning is printed from the MODEL (SM_EVT.Mning); `canon` puts
+    the modelled meaning into the normal form (`canonMeaning`), whatever the source states or omits, so `genTokens`
+    of a normal form prints it; `none` only remains for an event the context does not know (outside `supported`) -/
 def genEvtSpec (label : String) (meaning : Option String) (data : Params) : List Tok :=
   match meaning with
   | some m => [ident label, p colon, phrase m, p lpar] ++ genParams data ++ [p rpar]
